@@ -56,6 +56,7 @@ type CallAssert struct {
 	SinceCallee  string
 	SinceFile    string
 	SinceOff     int
+	SinceEnd     int // 'since if k': snapshot before the first instruction of the k-th if statement's condition [SinceOff, SinceEnd)
 	AtReturn bool
 	File     string
 	Off      int
@@ -307,7 +308,14 @@ func parseContractFile(path string) (*ContractFile, error) {
 				idx := strings.Index(rest, f[3]) + len(f[3])
 				ca := CallAssert{Before: f[0] == "before", Ordinal: k, Callee: callee, Assume: word == "assumeat"}
 				// optional: "since call K NAME:" — old() refers to the state just before that call
-				if len(f) > 8 && f[4] == "since" && f[5] == "call" {
+				if len(f) > 7 && f[4] == "since" && f[5] == "if" {
+					sk, err := strconv.Atoi(strings.TrimSuffix(f[6], ":"))
+					if err != nil {
+						return nil, fmt.Errorf("%s:%d: bad since ordinal", path, s.no)
+					}
+					ca.SinceOrdinal, ca.SinceCallee = sk, "if"
+					idx = strings.Index(rest, " if "+f[6]) + 4 + len(f[6])
+				} else if len(f) > 8 && f[4] == "since" && f[5] == "call" {
 					sk, err := strconv.Atoi(f[6])
 					if err != nil {
 						return nil, fmt.Errorf("%s:%d: bad since ordinal", path, s.no)
